@@ -195,6 +195,12 @@ def Node.run (R : List TOp → ρ) (fixed : Bool) : Node ρ → List (Ev ρ) →
 def Node.init (base : Nat) (genesis : ITree) : Node ρ :=
   { base := base, genesis := { genesis with version := base }, chain := [], stored := fun _ => [] }
 
+/-- the end of a fast sync, `AtomicSwitchToPreliminary` (blockchain.go:3035-3063): the state-db prefix of the imported
+snapshot, the identity-db prefix, the head and the removal of the preliminary head (and consensus version /
+intermediate genesis) all go into ONE batch written by a single `WriteSync`: the switch is one atomic write group, a
+node that dies is either entirely before or entirely after it. -/
+def switchWriteGroups : Nat := 1
+
 /-- a diff entry that neither deletes nor carries a value -/
 def Diff.malformed (d : Diff) : Bool := d.any (fun v => !v.deleted && decide (v.value = []))
 
